@@ -1,3 +1,4 @@
+import HcModel.Generated.PairLabels
 import HcProofs.Lemmas.Framing
 /-
   C06 — secure framing round-trips every payload in the specified wire format.
@@ -121,6 +122,23 @@ theorem session_keys_spec (C : Crypto) (shared : Bytes) :
     clientSess C shared = ⟨C.kdf shared (ascii "Control-Salt") (ascii "Control-Write-Encryption-Key"),
       C.kdf shared (ascii "Control-Salt") (ascii "Control-Read-Encryption-Key"), 0, 0⟩ :=
   ⟨rfl, rfl⟩
+
+/-- The same labels, read from the source on every run (Generated/PairLabels.lean, go/ast over
+    crypto/secure_session.go): the two HKDF calls of the accessory-side constructor use, in this order, the model's
+    (salt, read info) for the encrypt key and (salt, write info) for the decrypt key; the controller-side constructor
+    the other way round; length and counter are written little-endian; the AEAD calls of Encrypt / Decrypt take the
+    counter nonce and the length bytes as associated data. -/
+theorem session_labels_regenerated :
+    ((Hc.Generated.labelRows.filter (fun r => r.file == "crypto/secure_session.go" && r.func == "NewSecureSessionFromSharedKey" && r.kind == "hkdf")).map
+        (fun r => (r.a, r.b)) = [(saltControlS, infoReadS), (saltControlS, infoWriteS)]) ∧
+    ((Hc.Generated.labelRows.filter (fun r => r.file == "crypto/secure_session.go" && r.func == "NewSecureClientSessionFromSharedKey" && r.kind == "hkdf")).map
+        (fun r => (r.a, r.b)) = [(saltControlS, infoWriteS), (saltControlS, infoReadS)]) ∧
+    ((Hc.Generated.labelRows.filter (fun r => r.file == "crypto/secure_session.go" && r.kind == "endian")).all
+        (fun r => r.a == "binary.LittleEndian.PutUint64" || r.a == "binary.LittleEndian.PutUint16") = true) ∧
+    ((Hc.Generated.labelRows.filter (fun r => r.file == "crypto/secure_session.go" && (r.kind == "EncryptAndSeal" || r.kind == "DecryptAndVerify"))).map
+        (fun r => (r.func, r.a, r.b)) =
+      [("*secureSession.Decrypt", "<nonce[:]>", "lengthBytes"), ("*secureSession.Encrypt", "<nonce[:]>", "bLength[:]")]) := by
+  decide
 
 /-- Go's counter is a uint64 that wraps; the only place it is observable is the nonce, and the nonce
     depends on the counter modulo 2^64 only — so the unbounded counter of the model is faithful. -/
